@@ -443,6 +443,11 @@ func recoverTable(s *session, o *opt.Options) error {
 				}
 				closed = true
 				reader.Close()
+				// The rebuilt table gets a number of its own: until the new
+				// manifest is current the old one may still name the damaged
+				// original, with a size and bounds the rebuilt table does not
+				// have. The original is swept once the new manifest is in place.
+				fd = storage.FileDesc{Type: storage.TypeTable, Num: s.allocFileNum()}
 				if err := s.stor.Rename(tmpFd, fd); err != nil {
 					return err
 				}
